@@ -27,7 +27,8 @@ def amf_cfg(cfg, strict=False):
     w = len(cfg["imsi"])
     subs = {("%0*d" % (w, int(cfg["imsi"]) + i)) for i in range(n)}
     return dict(mcc=cfg["mcc"], mnc=cfg["mnc"], gnb_id=bytes(cfg["gnb_id"]), gnb_bitlength=cfg["gnb_bitlength"], gnb_name=cfg["gnb_name"],
-                k=cfg["k"], opc=cfg["opc"], gnb_gtp=cfg["gnb_gtp"], subscribers=subs, strict=strict)
+                k=cfg["k"], opc=cfg["opc"], gnb_gtp=cfg["gnb_gtp"], subscribers=subs, strict=strict,
+                sst=cfg.get("sst", 1), sd=cfg.get("sd", "010203"))
 
 
 GARBAGE = b"\xff\xfe\xfd"
@@ -105,7 +106,10 @@ def default_cfg(rng=None, counts=(1, 1, 1, 1, 1)):
     if rng is not None:
         mnc = rng.choice(["01", "93", "07", "123", "001"])
         mcc = rng.digits(3)
-        cfg.update(mcc=mcc, mnc=mnc, imsi=mcc + mnc + rng.digits(rng.choice([8, 9, 10]) if len(mnc) == 2 else rng.choice([7, 8, 9])),
+        # the last four digits give the PDU session identity (SUPI mod 10^4): keep it in 1..9 here; identities above
+        # 15 / 255 are the recorded C02 finding
+        n_free = (rng.choice([8, 9, 10]) if len(mnc) == 2 else rng.choice([7, 8, 9])) - 4
+        cfg.update(mcc=mcc, mnc=mnc, imsi=mcc + mnc + rng.digits(n_free) + "000" + str(rng.range(1, 9)),
                    k=rng.bytes(16).hex(), opc=rng.bytes(16).hex())
         bl = rng.range(22, 32)
         cfg.update(gnb_bitlength=bl, gnb_id=bytes(rng.below(128) for _ in range((bl + 7) // 8)),
